@@ -74,3 +74,11 @@ func (l *Locker) Unlock() {
 
 // HeldByMe reports whether the calling thread holds the lock.
 func (l *Locker) HeldByMe() bool { return l.m.Held() && l.owner == mc.ThreadID() }
+
+// Sends returns how many values were ever sent on channel c (-1 if unknown).
+func Sends(c any) int {
+	if x, ok := c.(interface{ Sends() int }); ok {
+		return x.Sends()
+	}
+	return -1
+}
